@@ -5,8 +5,7 @@ Schemas of qxmpp stanza / nonza classes, transcribed from the C++ `toXml` + `fro
 order in which `toXml` writes, so `encode` reproduces the library's own output form.
 
 (Where the code differs from what C01 demands the convention is a second schema ending in `Code` that
-models the code as it is; `FastFeature::toXml` writes `tls-0rtt` since /repo e3c2af8, so that one is gone;
-`ResultSetReplyCode` is the one in use today.)
+models the code as it is; at the pinned tree (/repo 4885fb5) no class needs one.)
 No proofs here, no Mathlib.
 -/
 namespace Qx.Xml.Codec.Classes
@@ -265,11 +264,8 @@ def Sasl2Success := nonza (declHead "success" nsSasl2) [
 reads it only if its namespace is the RSM one; `toXml` writes nothing when every part is unset.  Modelled as
 the `<set/>` child of an enclosing element (the harness supplies `<x>…</x>`); a root element that is
 itself called `set` is outside the model (the harness skips those documents).  The `int` members mean "value
-or unset" and are carried as `Option Nat`, every negative number being "unset": that is how `toXml` treats
-them (`>= 0`), but `isNull()` of today's code tests `== -1`, so an object holding e.g. -11 writes an empty
-`<set/>` where one holding -1 writes nothing.  Objects in such a state are outside these schemas (the harness
-keeps them out of the correspondence and leaves them to the fixpoint oracle, which fails on them: finding
-C02:not-fixpoint:ResultSetQuery); fixes/C01-resultset-count-and-unset.diff makes `isNull()` test `< 0`. -/
+or unset" and are carried as `Option Nat`, every negative number being "unset": `toXml` tests `>= 0` and, since
+/repo 4885fb5, `isNull()` tests `< 0` (before that `== -1`: fixed finding C02:not-fixpoint:ResultSetQuery). -/
 
 def nsRsm := s "http://jabber.org/protocol/rsm"
 def rsmSet : Head := { tag := s "set", ns := nsRsm, decl := true, anyNs := true, nsAfter := true }
@@ -284,10 +280,8 @@ def rsmStr (tag : String) : Field := .child (anyHead tag nsRsm) [.text .str] .op
 def ResultSetQuery := rsmHolder [rsmInt "max" (.optInt 31), rsmStr "after", rsmStr "before", rsmInt "index" (.optInt 31)] .wrapOmit
 
 def rsmFirst : Field := .child (anyHead "first" nsRsm) [.attr (s "index") (.optInt 31) true, .text .str] .optional
-/-- today's `QXmppResultSetReply`: `<count/>` is read with `toInt()` and no fallback, so an absent or
-unparsable count becomes 0 instead of "unset" (src/base/QXmppResultSet.cpp:214) -/
-def ResultSetReplyCode := rsmHolder [rsmFirst, rsmStr "last", rsmInt "count" (.optIntZ 31)] .optional
-/-- with /verif/fixes/C01-resultset-count-and-unset.diff (count read like the other integers) -/
+/-- `QXmppResultSetReply`; `<count/>` is read like the other integers since /repo 4885fb5 (before that with
+`toInt()` and no fallback: fixed findings C01:field-mismatch:ResultSetReply:set.2.0 and relatives) -/
 def ResultSetReply := rsmHolder [rsmFirst, rsmStr "last", rsmInt "count" (.optInt 31)] .wrapOmit
 
 /-- every modelled class by the name the harness uses -/
@@ -305,7 +299,7 @@ def all : List (String × Schema) := [
   ("PubSubAffiliation", PubSubAffiliation), ("SdpParameter", SdpParameter),
   ("RtpFeedbackInterval", RtpFeedbackInterval),
   ("TrustMessageKeyOwner", TrustMessageKeyOwner), ("TrustMessageElement", TrustMessageElement),
-  ("StreamFeatures", StreamFeatures), ("ResultSetQuery", ResultSetQuery), ("ResultSetReply", ResultSetReplyCode),
+  ("StreamFeatures", StreamFeatures), ("ResultSetQuery", ResultSetQuery), ("ResultSetReply", ResultSetReply),
   ("FastToken", FastToken), ("Sasl2Success", Sasl2Success)]
 
 def find (name : String) : Option Schema := (all.find? (·.1 == name)).map (·.2)
